@@ -1,5 +1,5 @@
 (* C11 - length filter partitions rows; unique file and names agree with the metadata. *)
-From VV Require Import Model.Base Model.Pattern Model.Unique Proofs.UniqueProofs.
+From VV Require Import Model.Base Model.Pattern Model.Unique Model.PyStr Proofs.UniqueProofs Generated.KernelsNames Proofs.NamesProofs.
 From Coq Require Import Sorting.Permutation.
 
 (* rows are partitioned by the length test (order preserved: both files are filters of the row sequence) *)
@@ -30,7 +30,47 @@ Example C11_example :
   unique_table [("b_snv", d "ACG"); ("a_custom", d "ACG"); ("c_1del", d "AG")]%string = [("a_custom", d "ACG"); ("c_1del", d "AG")]%string.
 Proof. vm_compute. reflexivity. Qed.
 
+(* oligo_name.  The name functions are translated from variant.py / meta_table.py on every run (coq/Generated/KernelsNames.v); in closed form
+   the SGE name is <transcript>.<gene>|NO_TRANSCRIPT _ <contig> : <position[_end][_REF>ALT|_ALT]> _ <source> [_rc] ... *)
+Theorem C11_sge_name_closed_form : forall gene_id transcript_id contig is_rc src v,
+  k_sge_oligo_name gene_id transcript_id contig is_rc src v =
+  do f <- var_frag v; Ok (tr_frag gene_id transcript_id ++ "_" ++ contig ++ ":" ++ f ++ "_" ++ src ++ rc_suffix is_rc)%string.
+Proof. exact k_sge_oligo_name_spec. Qed.
+Theorem C11_cdna_name_closed_form : forall gene_id transcript_id seq_id src v,
+  k_cdna_oligo_name gene_id transcript_id seq_id src v =
+  do f <- var_frag v; Ok (seq_id ++ "_" ++ tr_frag gene_id transcript_id ++ "_" ++ f ++ "_" ++ src)%string.
+Proof. exact k_cdna_oligo_name_spec. Qed.
+
+(* ... and it differs between rows of one targeton that differ in source or mutation: equal names force the same source, position, REF
+   length, ALT and (where the name spells it) REF.  Hypothesis: the source label (mutator code or VCF alias) has no underscore - true
+   of every mutator code; an alias with underscores could be confused with the fields before it *)
+Theorem C11_sge_names_injective : forall gene_id transcript_id contig is_rc src1 src2 v1 v2 n,
+  k_sge_oligo_name gene_id transcript_id contig is_rc src1 v1 = Ok n ->
+  k_sge_oligo_name gene_id transcript_id contig is_rc src2 v2 = Ok n ->
+  0 <= v_pos v1 -> 0 <= v_pos v2 -> no_us src1 = true -> no_us src2 = true ->
+  src1 = src2 /\ v_pos v1 = v_pos v2 /\ zlen (v_ref v1) = zlen (v_ref v2) /\ v_alt v1 = v_alt v2 /\
+  (v_alt v1 <> [] -> v_ref v1 = v_ref v2).
+Proof. exact sge_names_injective. Qed.
+Theorem C11_cdna_names_injective : forall gene_id transcript_id seq_id src1 src2 v1 v2 n,
+  k_cdna_oligo_name gene_id transcript_id seq_id src1 v1 = Ok n ->
+  k_cdna_oligo_name gene_id transcript_id seq_id src2 v2 = Ok n ->
+  0 <= v_pos v1 -> 0 <= v_pos v2 -> no_us src1 = true -> no_us src2 = true ->
+  src1 = src2 /\ v_pos v1 = v_pos v2 /\ zlen (v_ref v1) = zlen (v_ref v2) /\ v_alt v1 = v_alt v2 /\
+  (v_alt v1 <> [] -> v_ref v1 = v_ref v2).
+Proof. exact cdna_names_injective. Qed.
+
+Example C11_names_example :
+  k_sge_oligo_name (Some "G1"%string) (Some "T1"%string) "chr1"%string true "2del0"%string (mkVar 120 (d "AC") []) = Ok "T1.G1_chr1:120_121_2del0_rc"%string /\
+  k_sge_oligo_name None (Some "T1"%string) "chr1"%string false "al0"%string (mkVar 31 [] (d "GG")) = Ok "NO_TRANSCRIPT_chr1:31_GG_al0"%string /\
+  k_cdna_oligo_name (Some "G1"%string) (Some "T1"%string) "cdna0"%string "aa"%string (mkVar 7 (d "AAA") (d "AAC")) = Ok "cdna0_T1.G1_7_9_AAA>AAC_aa"%string /\
+  no_us "2del0"%string = true.
+Proof. exact names_example. Qed.
+
 Print Assumptions C11_partition_exact.
 Print Assumptions C11_counts_match.
 Print Assumptions C11_unique_one_per_mseq.
 Print Assumptions C11_unique_name_is_min.
+Print Assumptions C11_sge_name_closed_form.
+Print Assumptions C11_cdna_name_closed_form.
+Print Assumptions C11_sge_names_injective.
+Print Assumptions C11_cdna_names_injective.
